@@ -1651,9 +1651,11 @@ func genRoles(rng *rand.Rand, name string) *Plan {
 		}
 	}
 	// a third of them goes on: second node, first node logged out (the audit admin is paused), the admin bound again
-	if len(open) == 0 && rng.Intn(3) == 0 {
-		submit("RegisterNode", "@nvp2", "nvpNode", "", "u64:0", "node2", "chainA", "r")
-		vote(np-1, true)
+	if len(open) == 0 && rng.Intn(2) == 0 {
+		if rng.Intn(2) == 0 { // (otherwise the admin is bound to a node that was never registered: the bind must fail cleanly)
+			submit("RegisterNode", "@nvp2", "nvpNode", "", "u64:0", "node2", "chainA", "r")
+			vote(np-1, true)
+		}
 		submit("LogoutNode", "@nvp1", "r")
 		vote(np-1, rng.Intn(5) > 0)
 		submit("BindRole", "@aud1", "@nvp2", "r")
@@ -1711,6 +1713,9 @@ func genTimed(rng *rand.Rand, name string) *Plan {
 	var svcs []string
 	for _, c := range p.Chains {
 		svcs = append(svcs, c+":svc1", c+":svc2")
+	}
+	if rng.Intn(3) == 0 { // one service is unordered: its requests get "batch" receipts, requests to it register no timeout
+		p.Unord = []string{svcs[rng.Intn(len(svcs))]}
 	}
 	used := map[string]uint64{}
 	for round := 0; round < 4; round++ {
@@ -1804,7 +1809,7 @@ func genTimed(rng *rand.Rand, name string) *Plan {
 }
 
 // surface scenarios (C17): live context, then direct invocations of every exported method by every role
-func genSurface(rng *rand.Rand, name string, surf []lockstep.MethodInfo, frac int) *Plan {
+func genSurface(rng *rand.Rand, name string, surf []lockstep.MethodInfo, frac int, part int) *Plan {
 	// "CHAINA" differs from "chainA" only in letter case: its admin is the "admin of another chain"
 	p := &Plan{Name: name, Seed: 1, Proof: "serial", Chains: []string{"chainA", "chainB", "CHAINA"}, NSvc: 1, Black: map[string]string{}, Audit: rng.Intn(2) == 0, FreeGas: true}
 	// live context: an accepted request (BEGIN), a finished one, an open proposal
@@ -1843,9 +1848,12 @@ func genSurface(rng *rand.Rand, name string, surf []lockstep.MethodInfo, frac in
 	roles := []struct{ role, acct string }{{"outsider", "u3"}, {"otheradmin", "admin-CHAINA"}, {"otheradmin", "admin-chainB"}, {"govadmin", "@admin1"}}
 
 	var calls []Tx
+	combo := 0
 	for _, mi := range surf {
 		for _, ro := range roles {
-			if rng.Intn(frac) != 0 {
+			// plan number `part` takes every frac-th (method, role) combination: frac consecutive plans cover all of them
+			combo++
+			if (combo+part)%frac != 0 {
 				continue
 			}
 			tries := 2
@@ -2169,7 +2177,7 @@ func main() {
 				if surfCache == nil {
 					surfCache = lockstep.Surface()
 				}
-				plans = append(plans, genSurface(rng, fmt.Sprintf("surface-%d-%d", *seed, i), surfCache, *frac))
+				plans = append(plans, genSurface(rng, fmt.Sprintf("surface-%d-%d", *seed, i), surfCache, *frac, i))
 			} else if *mode == "roles" {
 				plans = append(plans, genRoles(rng, fmt.Sprintf("roles-%d-%d", *seed, i)))
 			} else if *mode == "rules" {
